@@ -137,6 +137,7 @@ class Ids:
 SHAPE_CLASSES: dict[str, int] = {}              # class name -> id of the generated class table; filled by run()
 SHAPE_SEEN: dict[tuple[int, str], set[str]] = {}  # (class id, key) -> {'L', 'O'} observed on real nodes
 _SHAPE_ID_OF: dict[type, int | None] = {}
+CHILDLESS_SEEN: set[int] = set()                 # class ids met with expandable keys that ALL yielded [] (where WF clause 2 is not vacuous)
 
 
 def _shape_class_id(t: type) -> int | None:
@@ -165,6 +166,10 @@ def prop_values(node: Any) -> list[tuple[str, Any]]:
 	out = [(k, getattr(node, k)) for k in node.prop_keys()]
 	for k, v in out:
 		observe_shape(node, k, v)
+	if out and SHAPE_CLASSES and all(isinstance(v, list) and not v for _, v in out):
+		cid = _shape_class_id(type(node))
+		if cid is not None:
+			CHILDLESS_SEEN.add(cid)
 	return out
 
 
@@ -1067,7 +1072,8 @@ class IdentityRun:
 		self.proc: Any = Procedure()
 		self.layout = layout
 		self.salt = salt
-		self.dedicated: set[str] = set()
+		self.dedicated: set[str] = set()   # classifications already decided by `wire`
+		self.registered: set[str] = set()  # ... of which these have an `on_<classification>` handler
 		if layout != 'dedicated':
 			self.proc.on('on_fallback', self.fb)
 		self.frames: list[dict[str, Any]] = []
@@ -1085,17 +1091,34 @@ class IdentityRun:
 			if c in self.dedicated:
 				continue
 			if self.layout == 'dedicated' or zlib.crc32(f'{self.salt}:{c}'.encode()) % 2 == 0:
-				self.proc.on(f'on_{c}', self.fb)
+				self.proc.on(f'on_{c}', self.handler_for(c))
+				self.registered.add(c)
 			self.dedicated.add(c)
+
+	def handler_for(self, c: str) -> Any:
+		def dedicated(node: Any, **kw: Any) -> tuple[Any, int, int]:
+			return self.fb(node, _via=c, **kw)
+		return dedicated
+
+	def misdispatched(self, frame: dict[str, Any]) -> tuple[str, str] | None:
+		"""procedure.py:127-133: `on_<classification>` when registered, else `on_fallback`."""
+		for (node, _), via in zip(frame['calls'], frame['via']):
+			c = node.classification
+			want = c if c in self.registered else None
+			if via != want:
+				return (f'dispatch:{type(node).__name__}', f"{node!r} was served by {'on_' + via if via else 'on_fallback'} although {'on_' + want + ' is registered' if want else 'no dedicated handler is registered for it'}")
+		return None
 
 	def fresh(self) -> 'IdentityRun':
 		"""a new Procedure with the same handler layout (after a finding / an exceeded budget)"""
 		return IdentityRun(self.layout, self.salt)
 
 	def fb(self, node: Any, **kw: Any) -> tuple[Any, int, int]:
+		via = kw.pop('_via', None)  # set by the dedicated handlers of `wire` (no getter is called `_via`)
 		frame = self.frames[-1]
 		idx = len(frame['calls'])
 		frame['calls'].append((node, kw))
+		frame['via'].append(via)
 		if frame['fail_at'] == idx:
 			raise _Boom()
 		plan = frame['nest'].get(idx)
@@ -1108,7 +1131,7 @@ class IdentityRun:
 	def fail_once(self, root: Any, at: int) -> tuple[str, str] | None:
 		"""A run whose handler raises at call `at`: must surface as Errors.Fatal (procedure.py:173-174)."""
 		self.wire(spec_walk(root)[0])
-		frame = {'calls': [], 'nest': {}, 'fail_at': at, 'id': next(self.run_ids)}
+		frame = {'calls': [], 'via': [], 'nest': {}, 'fail_at': at, 'id': next(self.run_ids)}
 		self.frames.append(frame)
 		try:
 			self.proc.exec(root)
@@ -1130,7 +1153,7 @@ class IdentityRun:
 			self.wire(order)
 		except Exception as e:  # noqa: BLE001
 			return (f'on-raises:{canon_exc(e)}', f'registering a handler raised {canon_exc(e)}')
-		frame = {'calls': [], 'nest': nest or {}, 'fail_at': None, 'id': next(self.run_ids)}
+		frame = {'calls': [], 'via': [], 'nest': nest or {}, 'fail_at': None, 'id': next(self.run_ids)}
 		depth = len(stacks_of(self.proc))
 		below = [list(f) for f in stacks_of(self.proc)]
 		self.frames.append(frame)
@@ -1145,7 +1168,7 @@ class IdentityRun:
 		finally:
 			self.frames.pop()
 		calls = frame['calls']
-		bad = first_misaligned(order, expect, calls, frame['id']) or restable(order, expect, root)
+		bad = first_misaligned(order, expect, calls, frame['id']) or restable(order, expect, root) or self.misdispatched(frame)
 		if bad:
 			return bad
 		if len(calls) != len(order):
@@ -2182,7 +2205,8 @@ STATEMENTS = {
 	'shipped_names_distinct / shipped_prop_keys_history_independent': 'GENERATED table of the 126 node classes (definition/*.py read by ast on every run: names, metadata paths, C3 MROs, expandable getters): no class shares its name with a base, hence prop_keys() of the shipped classes is history-independent outright (decide +kernel)',
 	'shipped_keys_nodup / shipped_terminals_declare_nothing / shipped_wf_reduces': 'no shipped class repeats an expandable key, ITerminal classes declare none; so for trees of shipped classes KeyConsistent and WF clauses 1 and 3 hold by the table and WF reduces to clause 2 (under) and clause 4 (annotation = shape), the two checked on every exported tree',
 	'shipped_getters_cover / shipped_annotation_matches_body': 'GENERATED from the BODIES of the expandable getters on every run (translate/gen_getter_shapes.py: shape inference over the AST, helper shapes read from the annotations in node.py, anything unknown is a TranslateError): the table covers exactly prop_keys() of every shipped class, and for all 165 (class, key) pairs the definition getattr(cls, key) resolves to is annotated list[...] exactly when every return of its body yields a list (decide +kernel) — WF clause 4 for the shipped definitions without waiting for a tree that exhibits it',
-	'shipped_wf_reduces_to_under (shippedShaped_instance, shippedShaped_clause4)': 'for trees of shipped classes whose property values have the shape of the getter bodies (ShippedShaped: compared with the running code by stream getter-shapes) WF reduces to clause 2 alone (nothing under a node whose properties yield nothing)',
+	'shipped_clause2_only_all_list': 'a shipped-shaped node whose properties yield nothing belongs to a class whose getters ALL return lists (one node-shaped getter makes the expansion non-empty): WF clause 2 is vacuous outside those classes (Entrypoint, List, Dict, Tuple, Block, ...; the stream getter-shapes lists them and which were met childless)',
+	'shipped_wf_reduces_to_under (shippedShaped_key_row, shippedShaped_instance, shippedShaped_clause4)': 'for trees of shipped classes whose property values have the shape of the getter bodies (ShippedShaped: compared with the running code by stream getter-shapes) WF reduces to clause 2 alone (nothing under a node whose properties yield nothing)',
 	'chain_semantics': 'Middleware chaining is in the model: the newest callback of an action runs; a plain one shadows the rest, one declaring `next` receives the rest of the chain on the same event (HProg.bind), past the end IndexError -> Errors.Fatal; runProg and denoteProg treat bind alike, so all theorems cover chained registrations',
 	'prop_keys_history_independent(_from)': 'Node.prop_keys over any class table whose MROs have pairwise distinct class names: for every order/repetition of calls each answer is the cache-free MRO computation (invariant: cache subset of the graph of the pure function)',
 	'prop_keys_fixed_key_counterexample': 'NOT prop_keys_fixed_key_statement: with the attribute name not carrying the class name (the seeded mutation) a subclass asked after its base answers with the base\'s list',
@@ -2252,6 +2276,13 @@ def stream_getter_shapes(rows: list[dict[str, Any]]) -> Stream:
 	st = common.correspond('getter-shapes', cases, 'proc', classify=lambda d: 'no expandable key' if not d['keys'] else
 		'every key observed on real nodes' if d['seen'] == d['keys'] else 'some keys observed' if d['seen'] else 'class not met in this run (static row only)')
 	total = sum(len(r['entries']) for r in rows)
+	cand = [i for i, r in enumerate(rows) if r['entries'] and all(e['bodyList'] for e in r['entries'])]
+	st.histogram['clause-2 candidate classes (every getter list-shaped, shipped_clause2_only_all_list)'] = len(cand)
+	st.histogram['clause-2 candidate classes met with every property empty'] = len([i for i in cand if i in CHILDLESS_SEEN])
+	stray = sorted(rows[i]['name'] for i in CHILDLESS_SEEN if i not in cand)
+	if stray:
+		st.disagreements.append({'case': 'childless instance of a class outside the all-list rows', 'op': '-', 'real': ','.join(stray), 'model': 'shipped_clause2_only_all_list excludes it'})
+	st.samples.append({'clause2_candidates': [rows[i]['name'] for i in cand], 'met_childless': sorted(rows[i]['name'] for i in cand if i in CHILDLESS_SEEN)})
 	st.note = (f'{len(SHAPE_SEEN)} of {total} (class, key) pairs met on real nodes in this run (every property read of the exports and the property walks is recorded); '
 		'an unobserved pair is covered by the static row (keys + annotation flag vs the imported class) only')
 	return st
